@@ -11,7 +11,11 @@
  *               rs (read short) re (read EINTR) ws (write short) we (write EINTR).
  *  SIM_STATS  : file that receives counters and the list of injected events at exit.
  *
- * No real clock, no real randomness: a run is a function of (program, inputs, SIM_*).
+ *  clock        : the SIM_IO value may carry the suffix ";clock=<seed>": clock_gettime / gettimeofday /
+ *               time then read a simulated clock that starts at a fixed instant and jumps forward by
+ *               seeded amounts (up to three hours per reading): clock jumps as a fault kind. Without
+ *               the suffix the real clock is passed through (the analyzer itself never reads it).
+ * No real randomness: a run is a function of (program, inputs, SIM_*).
  */
 #define _GNU_SOURCE
 #include <errno.h>
@@ -21,7 +25,9 @@
 #include <stdlib.h>
 #include <string.h>
 #include <sys/syscall.h>
+#include <sys/time.h>
 #include <sys/types.h>
+#include <time.h>
 #include <unistd.h>
 
 #define MAX_EVENTS 4096
@@ -31,6 +37,7 @@ static uint64_t ent_state, io_state;
 static int inited, io_mode; /* 0 off, 1 seeded, 2 explicit list */
 static unsigned rate_rs, rate_re, rate_ws, rate_we;
 static unsigned long n_rand, n_read, n_write, n_rs, n_re, n_ws, n_we, n_call;
+static int clock_mode; static uint64_t clock_state, clock_ns; static unsigned long n_clock, n_jump;
 static struct ev injected[MAX_EVENTS]; static unsigned long n_injected;
 static struct ev planned[MAX_EVENTS]; static unsigned long n_planned;
 
@@ -45,6 +52,16 @@ static void configure(const char *entropy, const char *e) {
   n_rand = n_read = n_write = n_rs = n_re = n_ws = n_we = n_call = 0;
   n_injected = n_planned = 0;
   io_mode = 0;
+  clock_mode = 0; n_clock = n_jump = 0;
+  static char iobuf[1 << 16];
+  if (e) {
+    const char *c = strstr(e, ";clock=");
+    if (c) {
+      clock_mode = 1; clock_state = strtoull(c + 7, 0, 10); clock_ns = 1700000000ULL * 1000000000ULL;
+      size_t n = (size_t)(c - e); if (n >= sizeof iobuf) n = sizeof iobuf - 1;
+      memcpy(iobuf, e, n); iobuf[n] = 0; e = iobuf;
+    }
+  }
   if (!e || !*e || !strcmp(e, "0")) { io_mode = 0; return; }
   if (!strncmp(e, "list:", 5)) {
     io_mode = 2;
@@ -88,7 +105,7 @@ static int stats_json(char *buf, size_t cap) {
   unsigned long m = n_injected < MAX_EVENTS ? n_injected : MAX_EVENTS;
   for (unsigned long i = 0; i < m && (size_t)n + 64 < cap; i++)
     n += snprintf(buf + n, cap - n, "%s%lu:%s:%lu", i ? "," : "", injected[i].call, injected[i].kind, injected[i].len);
-  n += snprintf(buf + n, cap - n, "\",\"injected_total\":%lu}", n_injected);
+  n += snprintf(buf + n, cap - n, "\",\"injected_total\":%lu,\"clock_reads\":%lu,\"clock_jumps\":%lu}", n_injected, n_clock, n_jump);
   return n;
 }
 int simenv_stats(char *buf, size_t cap) { return stats_json(buf, cap); }
@@ -123,6 +140,36 @@ static int decide(int is_write, size_t len, size_t *out_len) {
     *out_len = l; note(call, is_write ? "ws" : "rs", l); return 1;
   }
   return 0;
+}
+
+/* simulated clock: every reading advances by 1 us, and with probability 1/2 by a jump of up to 3 h */
+static uint64_t sim_now_ns(void) {
+  n_clock++;
+  clock_ns += 1000;
+  if (nx(&clock_state) & 1) { clock_ns += nx(&clock_state) % (3ULL * 3600 * 1000000000ULL); n_jump++; }
+  return clock_ns;
+}
+int clock_gettime(clockid_t id, struct timespec *ts) {
+  init();
+  if (!clock_mode || paused) return (int)syscall(SYS_clock_gettime, id, ts);
+  uint64_t t = sim_now_ns();
+  ts->tv_sec = (time_t)(t / 1000000000ULL); ts->tv_nsec = (long)(t % 1000000000ULL);
+  return 0;
+}
+int gettimeofday(struct timeval *tv, void *tz) {
+  init();
+  if (!clock_mode || paused) return (int)syscall(SYS_gettimeofday, tv, tz);
+  uint64_t t = sim_now_ns();
+  if (tv) { tv->tv_sec = (time_t)(t / 1000000000ULL); tv->tv_usec = (suseconds_t)((t % 1000000000ULL) / 1000); }
+  return 0;
+}
+time_t time(time_t *out) {
+  init();
+  time_t r;
+  if (!clock_mode || paused) { struct timespec ts; syscall(SYS_clock_gettime, CLOCK_REALTIME, &ts); r = ts.tv_sec; }
+  else r = (time_t)(sim_now_ns() / 1000000000ULL);
+  if (out) *out = r;
+  return r;
 }
 
 ssize_t getrandom(void *buf, size_t len, unsigned int flags) {
